@@ -921,9 +921,15 @@ fn run(case: &Case, out: &mut Out) {
     for op in &case.ops {
         let a = &op.args;
         let name = op.name.as_str();
-        if name == "bb" {
-            // black-box tier: <mode> <scenario> <seed> <buffer_size> -> the c18bb binary (a real worker)
-            let exe = std::env::current_exe().unwrap().parent().unwrap().join("c18bb");
+        if name == "bb" || name == "bbs" {
+            // black-box tier: <mode> <scenario> <seed> <buffer_size> -> the c18bb binary (a real worker);
+            // bbs: the same binary built with the `splice` feature (separate target directory)
+            let dir = std::env::current_exe().unwrap().parent().unwrap().to_path_buf();
+            let exe = if name == "bbs" {
+                dir.parent().unwrap().parent().unwrap().join("cargo-target-splice").join("release").join("c18bb")
+            } else {
+                dir.join("c18bb")
+            };
             let res = std::process::Command::new(exe).args(a.iter().map(|t| t.to_string())).output();
             match res {
                 Ok(o) => {
